@@ -71,8 +71,10 @@ def run(prog, rep):
                 l = strip_casts(n["l"])
                 if l is not None and l["k"] == "member" and l["field"] == "mutex":
                     writers.append((f, n))
-    okw = len(writers) == 1 and writers[0][0].name == "p_spinlock_new" and \
-        callee_of(strip_casts(writers[0][1]["r"]) or {}) == "p_mutex_new"
+    okw = len(writers) == 1 and writers[0][0].name == "p_spinlock_new"
+    if okw:
+        org = [x for x in sim.fn("p_spinlock_new", raw=True).origins(writers[0][1]["r"]) if x["k"] != "int"]
+        okw = len(org) >= 1 and all(x["k"] == "call" and callee_of(x) == "p_mutex_new" for x in org)
     rep.ob("C01.5", sim.fn("p_spinlock_new"), "field:mutex", okw,
            "PSpinLock_.mutex is assigned once, in p_spinlock_new, from p_mutex_new ()" if okw else
            "PSpinLock_.mutex has %d writer(s): %s" % (len(writers), ", ".join(f.name for f, n in writers)),
@@ -105,6 +107,16 @@ def run(prog, rep):
 
 def spin_ptr_ok(arg, fn):
     a = strip_casts(arg)
+    if a is not None and a["k"] == "ref" and a.get("decl") == "local":
+        # a pointer temporary: `volatile pint *p = &spinlock->spin;` with that single definition
+        defs = []
+        for b, i, n in fn.nodes():
+            if n["k"] == "decl" and n["name"] == a["name"] and n.get("init") is not None:
+                defs.append(n["init"])
+            elif n["k"] == "asg" and strip_casts(n["l"]) is not None and strip_casts(n["l"])["k"] == "ref" and strip_casts(n["l"])["name"] == a["name"]:
+                defs.append(n["r"])
+        if len(defs) == 1:
+            a = strip_casts(defs[0])
     if a is None or not (a["k"] == "un" and a["op"] == "&"):
         return False
     m = strip_casts(a["e"])
